@@ -598,6 +598,7 @@ Lemma CL_ok orig : Forall item_name_ok orig -> pcfg_ok (CL orig).
 Proof.
   intros Hall. constructor.
   - apply CL_rel.
+  - exact I.
   - apply peek_token_L.
   - apply skip_ignored_L.
   - apply push_ignored_L.
